@@ -55,6 +55,16 @@ type Scenario struct {
 	Has    []bool   `json:"has,omitempty"`
 	Noise  bool     `json:"noise,omitempty"` // a chat completions request on the proxy route went through the same stack just before
 	Move   string   `json:"move,omitempty"`  // how the fleet got from the previous step's state to this one (generator's label)
+	// size cases (sizes.go): the request body is EXACTLY BodySize bytes long (Fill / Shift: what the padding is made of and
+	// where its multi-byte characters sit), on a stack whose translators.anthropic.max_message_size is MaxMsg (0 = not
+	// configured: the default of 10 MiB applies). A body longer than the limit is refused by the handler (413) and
+	// forwarded nowhere; every other one is judged like any request.
+	SizeCase bool   `json:"size_case,omitempty"`
+	BodySize int    `json:"body_size,omitempty"`
+	MaxMsg   int64  `json:"max_msg,omitempty"`
+	Fill     string `json:"fill,omitempty"`
+	Shift    int    `json:"shift,omitempty"`
+	Anchor   string `json:"anchor,omitempty"` // generator's label: which limit / power of two the size sits next to
 }
 
 type Delivery struct {
@@ -63,6 +73,7 @@ type Delivery struct {
 	Shape     string `json:"shape"`
 	Identical bool   `json:"identical"` // sha256(body received) == sha256(body the client sent)
 	SHA       string `json:"sha"`
+	Len       int    `json:"len"`
 }
 
 type Obs struct {
@@ -86,6 +97,8 @@ type plan struct {
 	enabled bool
 	engine  string
 	reqs    []*Scenario
+	sized   bool  // a plan of size cases: max_message_size is maxMsg
+	maxMsg  int64
 }
 
 func transStats(s *stack.Stack) (int64, int64) {
@@ -128,7 +141,9 @@ func runPlan(p *plan) []*Obs {
 	s, err := stack.Start(stack.Opts{Vary: stack.VaryFor("c14", p.types, p.enabled, p.engine, len(p.reqs)), Engine: p.engine, Balancer: "priority", EPs: eps, ModelDiscovery: false, Load: true, Mutate: func(cfg *config.Config) {
 		cfg.Translators.Anthropic.Enabled = true
 		cfg.Translators.Anthropic.PassthroughEnabled = p.enabled
-		if (len(p.types)+len(p.reqs))%2 == 0 {
+		if p.sized {
+			cfg.Translators.Anthropic.MaxMessageSize = p.maxMsg
+		} else if (len(p.types)+len(p.reqs))%2 == 0 {
 			cfg.Translators.Anthropic.MaxMessageSize = 0
 		}
 	}})
@@ -164,13 +179,17 @@ func runPlan(p *plan) []*Obs {
 				b.SetScript(func(_ int, sn *stack.Seen) stack.Behaviour { return anth.OKAnswer(name, sn) })
 			}
 		}
-		if len(sc.Fault) > 0 {
+		if len(sc.Fault) > 0 || sc.SizeCase { // (a stack of size cases sees many refusals of its preferred endpoint)
 			sc.BreakerOpen = make([]bool, len(bes))
 			if svc, ok := s.Proxy.(*olla.Service); ok {
 				for i, b := range bes {
 					sc.BreakerOpen[i] = svc.GetCircuitBreaker(b.Name).IsOpen()
 				}
 			}
+		}
+		if sc.SizeCase {
+			out[ri] = sizedRequest(s, bes, sc)
+			continue
 		}
 		o := oneRequest(s, bes, sc, anth.Model, 3*time.Second)
 		out[ri] = o
@@ -185,12 +204,27 @@ func oneRequest(s *stack.Stack, bes []*stack.Backend, sc *Scenario, model string
 	if sc.Invalid {
 		body = []byte(fmt.Sprintf(`{"model":%q,"max_tokens":64,"stream":%v,"messages":[]}`, model, sc.Stream))
 	}
+	if sc.SizeCase {
+		body = sizedBody(model, sc)
+	}
 	p0, t0 := transStats(s)
 	raw := stack.Request("POST", "/olla/anthropic/v1/messages", s.Addr, [][2]string{{"Content-Type", "application/json"}, {"anthropic-version", "2023-06-01"}, {"X-Verif-Token", sc.Salt}}, body, false)
 	r := stack.Do(s.Addr, raw, timeout)
 	o := &Obs{Err: r.Err, Status: r.Status, CT: anth.Header1(r, "Content-Type"), Mode: anth.Header1(r, "X-Olla-Mode"), Ms: r.Ms, ClientSHA: anth.SHA(body)}
 	o.Native = len(r.Body) > 0 && (contains(r.Body, "native hello from") || contains(r.Body, "msg_native"))
 	time.Sleep(10 * time.Millisecond)
+	if sc.SizeCase {
+		// a backend records a request when it has read the whole body (or the connection ended): wait until nobody is
+		// still reading or answering and the number of recorded requests stands still
+		stack.Quiesce(func() string {
+			n, busy := 0, int64(0)
+			for _, b := range bes {
+				n += b.Count()
+				busy += b.Busy() + b.OpenConns()
+			}
+			return fmt.Sprint(n, busy)
+		})
+	}
 	var all []*stack.Seen
 	idx := map[string]int{}
 	for i, b := range bes {
@@ -203,7 +237,7 @@ func oneRequest(s *stack.Stack, bes []*stack.Backend, sc *Scenario, model string
 	}
 	sort.Slice(all, func(i, j int) bool { return all[i].Seq < all[j].Seq })
 	for _, x := range all {
-		o.Deliveries = append(o.Deliveries, Delivery{EP: idx[x.Backend], Path: x.Path, Shape: anth.Shape(x.Body), Identical: x.BodySHA == o.ClientSHA, SHA: x.BodySHA[:12]})
+		o.Deliveries = append(o.Deliveries, Delivery{EP: idx[x.Backend], Path: x.Path, Shape: anth.Shape(x.Body), Identical: x.BodySHA == o.ClientSHA, SHA: x.BodySHA[:12], Len: x.BodyLen})
 	}
 	stack.Quiesce(func() string { a, b := transStats(s); return fmt.Sprint(a, b) })
 	p1, t1 := transStats(s)
@@ -341,7 +375,7 @@ func main() {
 		b, _ := os.ReadFile(rp)
 		json.Unmarshal(b, &rep)
 		sc := rep.FailingCase.Scenario
-		plans = append(plans, &plan{types: sc.Types, enabled: sc.Enabled, engine: sc.Engine, reqs: []*Scenario{&sc}})
+		plans = append(plans, &plan{types: sc.Types, enabled: sc.Enabled, engine: sc.Engine, reqs: []*Scenario{&sc}, sized: sc.SizeCase, maxMsg: sc.MaxMsg})
 	} else {
 		for _, a := range types { // all singles
 			addPlan([]string{a}, true)
@@ -371,6 +405,12 @@ func main() {
 		for i := 0; i < nHist; i++ {
 			hists = append(hists, genHistory(hr, i+1, types, rawNative, nSteps, tier == "thorough"))
 		}
+	}
+	// size cases (sizes.go): bodies at and around the configured limit and the powers of two below it; drawn from a fork
+	// taken after the plans' and the histories' draws (which stay what they were)
+	if vlib.ReplayPath() == "" {
+		sr := r.Fork()
+		plans = append(plans, genSizePlans(sr, types, rawNative, tier == "thorough")...)
 	}
 	hresults := make([][]*Obs, len(hists))
 	results := make([][]*Obs, len(plans))
@@ -429,6 +469,9 @@ func main() {
 				default:
 					cls += "o"
 				}
+			}
+			if sc.SizeCase {
+				c.Count(fmt.Sprintf("size %s fill=%s", sc.Anchor, sc.Fill))
 			}
 			c.Count(fmt.Sprintf("mix=%s enabled=%v", cls, sc.Enabled))
 			c.Emit(map[string]any{"kind": "c14", "scenario": sc, "impl": results[i][k]})
